@@ -234,6 +234,9 @@ fn entry_alphabet(thorough: bool) -> Vec<AbsEnv> {
     v.push(mk(&[(Sc::All, Beh::Override, b"\xff\xfe", b"\x00\xff"), (p(), Beh::Override, b"\xff\xfe", b"\xfe")]));
     v.push(mk(&[(Sc::All, Beh::Default, b"A", b""), (Sc::Build, Beh::Default, b"A", b""), (Sc::Launch, Beh::Default, b"A", b"")]));
     v.push(mk(&[(Sc::Launch, Beh::Override, b"p", b"var-named-like-process"), (p(), Beh::Override, b"X", b"1")]));
+    // values longer than any buffer or argument-length limit (2^17 + 1 bytes), ending in a distinct byte
+    let long: Vec<u8> = std::iter::repeat(b'v').take(1 << 17).chain(std::iter::once(b'!')).collect();
+    v.push(mk(&[(Sc::All, Beh::Override, b"LONG", &long), (p(), Beh::Append, b"LONG", &long)]));
     v.push(mk(&[(Sc::All, Beh::Override, b"A", b"1"), (Sc::Build, Beh::Override, b"A", b"2"), (Sc::Launch, Beh::Override, b"A", b"3"), (p(), Beh::Override, b"A", b"4"), (q(), Beh::Override, b"A", b"5")]));
     v
 }
